@@ -8,7 +8,7 @@ PROP = "C17"
 PROPS_V = "theories/Props/C17.v"
 THEOREMS = [
     "C17_parse_print_expr", "C17_parse_print_expr_refuted", "C17_precedence", "C17_keywords_ci",
-    "C17_parse_print_query", "C17_parse_print_command", "C17_fuel_enough", "C17_parse_total", "C17_numeric_limits",
+    "C17_plot_parse_print_expr", "C17_plot_precedence", "C17_parse_print_query", "C17_parse_print_command", "C17_fuel_enough", "C17_parse_total", "C17_numeric_limits",
     "C17_store_string_braces", "C17_no_exponential_witness",
     "C17_dispatch_refuted", "C17_dispatch_outside_known",
 ]
@@ -196,6 +196,13 @@ def g_field(rng, kwlike=False):
     return a
 
 
+# characters whose upper/lower-casing changes the UTF-8 length or the number of chars (ı ſ ﬁ ﬂ ﬀ ﬃ ŉ ǰ ΐ ΰ ɑ ɐ ɫ ɽ և ß İ K Å ẞ),
+# 2-, 3- and 4-byte characters, combining marks, non-ASCII spaces
+UNI = ["\u0131", "\u017f", "\ufb01", "\ufb02", "\ufb00", "\ufb03", "\u0149", "\u01f0", "\u0390", "\u03b0", "\u0251", "\u0250", "\u026b", "\u027d",
+       "\u0587", "\u00df", "\u0130", "\u212a", "\u212b", "\u1e9e", "\u00e9", "\u00f1", "\u0301", "\u0308", "\u200d", "\u65e5", "\u672c", "\U0001f680",
+       "\U00010400", "\u2003", "\u00a0", "\u0416", "\u03c2"]
+
+
 def g_string(rng, ascii_only=False, noback=False):
     n = rng.range(0, 10)
     out = ""
@@ -371,7 +378,8 @@ def t_json(rng, depth=2):
     r = rng.below(10)
     if depth <= 0 or r < 5:
         return rng.choice(["1", "-5", "0", "true", "false", "null", "1.5", "2.5e3", "1e+16", "-2E+3", "1e-7", '"a\\"}"', '"{{"', '"\\\\"', '"x"', '"a b"', '"é"', '"q\\"r"', '"{"', '"}"',
-                           str(rng.range(-10 ** 12, 10 ** 12)), '"' + g_string(rng, True, True).decode() + '"'])
+                           str(rng.range(-10 ** 12, 10 ** 12)), '"' + g_string(rng, True, True).decode() + '"',
+                           '"' + rng.choice(UNI) + rng.choice(UNI) + '"', '"x' + rng.choice(UNI) + ' AS y"'])
     if r < 8:
         return "{" + ",".join('"%s":%s' % (g_ident(rng).decode(), t_json(rng, depth - 1)) for _ in range(rng.range(0, 3))) + "}"
     return "[" + ",".join(t_json(rng, depth - 1) for _ in range(rng.range(0, 3))) + "]"
@@ -380,7 +388,8 @@ def t_json(rng, depth=2):
 def t_other(rng):
     r = rng.below(14)
     idn = lambda: g_ident(rng, rng.chance(1, 6)).decode()
-    name = lambda: rng.choice([idn(), '"' + g_string(rng, True).decode() + '"', idn() + ":" + idn(), "user-1"])
+    name = lambda: rng.choice([idn(), '"' + g_string(rng, True).decode() + '"', '"' + g_string(rng).decode("utf-8") + '"',
+                               '"' + rng.choice(UNI) + g_ident(rng).decode() + rng.choice(UNI) + '"', idn() + ":" + idn(), "user-1"])
     if r < 2:
         s = kwc(rng, "REPLAY") + sp(rng) + (idn() + sp(rng) if rng.chance(1, 2) else "") + kwc(rng, "FOR") + sp(rng) + name()
         for _ in range(rng.range(0, 3)):
@@ -434,6 +443,296 @@ def t_other(rng):
     return s
 
 
+# ---- PLOT: AST, printer and expected rendering (independent of the model)
+PMETRICS = ["count", "countf", "countu", "total", "sum", "avg", "min", "max"]
+
+
+def p_ident(rng, hyphen=True):
+    while True:
+        s = rng.choice(IDC + "_")
+        for _ in range(rng.range(0, 6)):
+            s += rng.choice(IDC[:26] + "0123456789_")
+        if hyphen and rng.chance(1, 8):
+            s += "-" + rng.choice(IDC[:26] + "0123456789") + rng.choice(["", "x", "_1"])
+        if lead_run(s) not in KEYWORDS + ["EXISTS", "TOP", "VS", "OF", "OVER", "FILTER", "BREAKDOWN", "THEN", "SUM", "PLOT"]:
+            return s.encode()
+
+
+def p_field(rng):
+    a = p_ident(rng)
+    return a + b"." + p_ident(rng) if rng.chance(1, 6) else a
+
+
+def p_metric(rng):
+    k = rng.choice(PMETRICS)
+    return (k,) if k == "count" else (k, p_field(rng))
+
+
+def p_value(rng):
+    v = g_value(rng)
+    return v
+
+
+def p_expr(rng, depth):
+    r = rng.below(10)
+    if depth <= 0 or r < 3:
+        if rng.chance(2, 3):
+            return ("C", p_field(rng), rng.choice(OPS), p_value(rng))
+        return ("I", p_field(rng), [p_value(rng) for _ in range(rng.range(1, 3))])
+    if r < 5:
+        return ("N", p_expr(rng, depth - 1))
+    if r < 8:
+        return ("A", p_expr(rng, depth - 1), p_expr(rng, depth - 1))
+    return ("O", p_expr(rng, depth - 1), p_expr(rng, depth - 1))
+
+
+def pr_val(v):
+    if v[0] == "s":
+        return '"' + v[1].decode("utf-8") + '"'
+    if v[0] == "i":
+        return str(v[1])
+    return ("-" if v[1] else "") + v[2] + "." + v[3]
+
+
+OPTXT = {"eq": "=", "neq": "!=", "gt": ">", "gte": ">=", "lt": "<", "lte": "<="}
+
+
+def pr_expr(rng, e, lvl=0):
+    """minimal parentheses for the right-nested grammar; keyword casing and spacing vary"""
+    t = e[0]
+    if t == "C":
+        return e[1].decode() + sp(rng, False) + OPTXT[e[2]] + sp(rng, False) + pr_val(e[3])
+    if t == "I":
+        return e[1].decode() + sp(rng) + kwc(rng, "IN") + sp(rng, False) + "(" + ("," + sp(rng, False)).join(pr_val(v) for v in e[2]) + ")"
+    if t == "N":
+        return kwc(rng, "NOT") + sp(rng) + pr_expr(rng, e[1], 2)
+    if t == "A":
+        x = pr_expr(rng, e[1], 2) + sp(rng) + kwc(rng, "AND") + sp(rng) + pr_expr(rng, e[2], 1)
+        return "(" + x + ")" if lvl > 1 else x
+    x = pr_expr(rng, e[1], 1) + sp(rng) + kwc(rng, "OR") + sp(rng) + pr_expr(rng, e[2], 0)
+    return "(" + x + ")" if lvl > 0 else x
+
+
+def pr_metric(rng, m):
+    if m[0] == "count":
+        return kwc(rng, "COUNT")
+    name = {"countf": "COUNT", "countu": "UNIQUE", "total": "TOTAL", "sum": "SUM", "avg": "AVG", "min": "MIN", "max": "MAX"}[m[0]]
+    return kwc(rng, name) + sp(rng, False) + "(" + sp(rng, False) + m[1].decode() + sp(rng, False) + ")"
+
+
+def m_norm(m):
+    return ("total", m[1]) if m[0] == "sum" else m
+
+
+def m_agg(m):
+    m = m_norm(m)
+    return ("count",) if m[0] == "count" else (m[0], m[1])
+
+
+def m_name(m):
+    m = m_norm(m)
+    if m[0] == "count":
+        return b"count"
+    return {"countf": b"count_", "countu": b"count_unique_", "total": b"total_", "avg": b"avg_", "min": b"min_", "max": b"max_"}[m[0]] + m[1]
+
+
+def g_plot_side(rng):
+    cl = []
+    for _ in range(rng.choice([0, 1, 1, 2, 3])):
+        if rng.chance(3, 4):
+            cl.append(("F", p_expr(rng, rng.range(0, 3))))
+        else:
+            cl.append(g_top(rng))
+    return {"metric": p_metric(rng), "events": [p_ident(rng) for _ in range(rng.choice([1, 1, 1, 2, 3]))], "clauses": cl}
+
+
+def g_top(rng):
+    by = None
+    if rng.chance(1, 2):
+        by = ("m", p_metric(rng)) if rng.chance(1, 2) else ("f", p_field(rng))
+    return ("T", rng.choice([0, 1, 5, 100, 2 ** 32 - 1, 2 ** 32 + 7]), by)
+
+
+def g_plot(rng):
+    main = g_plot_side(rng)
+    sides = []
+    for _ in range(rng.choice([0, 0, 1, 1, 2])):
+        sd = g_plot_side(rng)
+        if rng.chance(9, 10):
+            sd["metric"] = main["metric"] if rng.chance(3, 4) else (("sum", main["metric"][1]) if main["metric"][0] == "total" else main["metric"])
+        sides.append(sd)
+    after = []
+    for _ in range(rng.choice([0, 1, 1, 2, 3])):
+        k = rng.below(3)
+        if k == 0:
+            after.append(("B", [p_field(rng) for _ in range(rng.range(1, 3))]))
+        elif k == 1:
+            after.append(("O", rng.choice(GRANS), p_field(rng)))
+        else:
+            after.append(g_top(rng))
+    # a TOP directly after the last side's clauses is read as that side's clause (the before-VS clause loop is
+    # greedy), so the AST keeps such TOPs there
+    last = sides[-1] if sides else main
+    while after and after[0][0] == "T":
+        last["clauses"].append(after.pop(0))
+    return {"main": main, "sides": sides, "after": after}
+
+
+def pr_top(rng, c):
+    s = kwc(rng, "TOP") + sp(rng) + str(c[1])
+    if c[2] is not None:
+        s += sp(rng) + kwc(rng, "BY") + sp(rng) + (pr_metric(rng, c[2][1]) if c[2][0] == "m" else c[2][1].decode())
+    return s
+
+
+def pr_plot_side(rng, sd):
+    s = pr_metric(rng, sd["metric"]) + sp(rng) + kwc(rng, "OF") + sp(rng)
+    s += (rng.choice([" -> ", "->", " THEN ", " then "])).join(e.decode() for e in sd["events"])
+    for c in sd["clauses"]:
+        s += sp(rng) + (kwc(rng, "FILTER") + sp(rng) + pr_expr(rng, c[1]) if c[0] == "F" else pr_top(rng, c))
+    return s
+
+
+def pr_plot(rng, p):
+    s = kwc(rng, "PLOT") + sp(rng) + pr_plot_side(rng, p["main"])
+    for sd in p["sides"]:
+        s += sp(rng) + kwc(rng, "VS") + sp(rng) + pr_plot_side(rng, sd)
+    for c in p["after"]:
+        if c[0] == "B":
+            s += sp(rng) + kwc(rng, "BREAKDOWN") + sp(rng) + kwc(rng, "BY") + sp(rng) + ("," + sp(rng, False)).join(f.decode() for f in c[1])
+        elif c[0] == "O":
+            s += sp(rng) + kwc(rng, "OVER") + sp(rng) + kwc(rng, c[1].upper()) + sp(rng, False) + "(" + c[2].decode() + ")"
+        else:
+            s += sp(rng) + pr_top(rng, c)
+    return s
+
+
+def canon_plot(p):
+    """what PlotQueryParts::into_command builds, written down from the documentation of PLOT"""
+    for sd in p["sides"]:
+        if m_norm(sd["metric"]) != m_norm(p["main"]["metric"]):
+            return "ERR"
+    tm = bd = stop = None
+    stby = None
+    for c in p["after"]:
+        if c[0] == "B":
+            bd = c[1]
+        elif c[0] == "O":
+            tm = (c[1], c[2])
+        else:
+            stop, stby = c[1] % 2 ** 32, c[2]
+
+    def one(sd):
+        flt = top = tby = None
+        for c in sd["clauses"]:
+            if c[0] == "F":
+                flt = c[1] if flt is None else ("A", flt, c[1])
+            else:
+                top, tby = c[1] % 2 ** 32, c[2]
+        t = stop if stop is not None else top
+        b = stby if stby is not None else tby
+        aggs = [m_agg(sd["metric"])]
+        order = None
+        if t is not None:
+            if b is None:
+                order = (m_name(sd["metric"]), True)
+            elif b[0] == "f":
+                order = (b[1], True)
+            else:
+                if m_norm(b[1]) != m_norm(sd["metric"]):
+                    aggs.append(m_agg(b[1]))
+                order = (m_name(b[1]), True)
+        q = {"ev": sd["events"][0], "seq": [("F", e) for e in sd["events"][1:]], "ctx": None, "since": None,
+             "tf": tm[1] if tm else None, "stf": None, "where": flt, "ret": None, "link": None, "aggs": aggs,
+             "tb": tm[0] if tm else None, "gb": bd, "order": order, "limit": t, "offset": None}
+        return canon_query(q)
+    qs = [one(p["main"])] + [one(sd) for sd in p["sides"]]
+    return "OK " + qs[0] if len(qs) == 1 else "OK CMP " + " | ".join(qs)
+
+
+# ---- DEFINE / BATCH / REMEMBER families with an expected result
+def g_define(rng):
+    """(text, expected)"""
+    et = rng.choice(IDC[:26]) + "".join(rng.choice(IDC[:26] + "0123456789_") for _ in range(rng.range(0, 8)))
+    ver = rng.choice([None, None, 0, 1, 7, 4294967295, 4294967296, 10 ** 12])
+    fields = {}
+    parts = []
+    for _ in range(rng.range(1, 4)):
+        k = rng.choice([g_ident(rng).decode(), g_ident(rng).decode(), "a b", "k" + rng.choice(UNI)])
+        if rng.chance(2, 3):
+            v = rng.choice(["int", "string", "u64", "datetime | null", "x" + rng.choice(UNI)])
+            fields[k] = hb(v.encode())
+            vt = rng.choice(['"%s"' % v, v if re.fullmatch(r"[A-Za-z_][A-Za-z0-9_-]*", v) else '"%s"' % v])
+        else:
+            vs = [rng.choice(["a", "b-c", "pro", "x y", "z" + rng.choice(UNI)]) for _ in range(rng.range(1, 3))]
+            fields[k] = hl([x.encode() for x in vs])
+            vt = "[" + ("," + sp(rng, False)).join('"%s"' % x for x in vs) + "]"
+        kt = '"%s"' % k if (" " in k or not k.isascii() or rng.chance(1, 2)) else k
+        parts.append(kt + sp(rng, False) + ":" + sp(rng, False) + vt)
+    txt = kwc(rng, "DEFINE") + sp(rng) + et
+    if ver is not None:
+        txt += sp(rng) + kwc(rng, "AS") + sp(rng) + str(ver)
+    txt += sp(rng) + kwc(rng, "FIELDS") + sp(rng, False) + "{" + sp(rng, False) + ("," + sp(rng, False)).join(parts) + sp(rng, False) + "}"
+    exp = "OK D %s v=%s %s" % (hb(et.encode()), "~" if ver is None else str(min(ver, 2 ** 32 - 1)),
+                               ",".join(sorted(hb(k.encode()) + ":" + v for k, v in fields.items())))
+    return txt, exp
+
+
+def t_define(rng):
+    fields = ("," + sp(rng, False)).join('%s%s:%s%s' % (
+        rng.choice(['"a"', "b", '"c d"', "a", '"a"', "1", '"k' + rng.choice(UNI) + '"', '"q\\"r"', '"x\\\\n"']), sp(rng, False), sp(rng, False),
+        rng.choice(['"int"', '"string"', '["x","y"]', "int", "[]", "1", "12", "1 2", "-5", "1.5", '{"n":1}', '[["a"]]', '["a",1]', '[a, b]', '"a" "b"', "a;", "(int)", "= x", "+1"]))
+        for _ in range(rng.range(0, 4)))
+    return (kwc(rng, "DEFINE") + sp(rng) + rng.choice([g_ident(rng).decode(), "9x", "a-b", '"q"', "x" * 101, "x" * 100, ""])
+            + (sp(rng) + kwc(rng, "AS") + sp(rng) + rng.choice(["1", "2", "-1", "-0", "x", "4294967296", "1.5", "1.", "007", "0.999999999999999", "1-2", '"3"', ""]) if rng.chance(1, 2) else "")
+            + sp(rng) + kwc(rng, rng.choice(["FIELDS", "FIELDS", "FIELD"])) + sp(rng, False) + "{" + fields + rng.choice(["}", "}", "", "} x", "}}"]))
+
+
+def t_batch(rng, depth=1):
+    parts = []
+    junk = rng.chance(1, 4)
+    for _ in range(rng.range(0, 4) if junk else rng.range(1, 3)):
+        r = rng.below(10)
+        if r == 0:
+            parts.append(rng.choice(["PING", "FLUSH", "ping", "LIST USERS"] + (["", " "] if junk else [])))
+        elif r < 3:
+            parts.append(t_query(rng).strip().rstrip(";") if junk else "QUERY " + g_ident(rng).decode() + rng.choice(
+                ["", " LIMIT 5", " WHERE a = 1 AND b = \"x y\"", " FOR \"c" + rng.choice(UNI) + "\"", " WHERE a IN (1, 2) OR NOT b = 3", " RETURN [a, \"b;c\"]",
+                 " WHERE x = 1.50", " WHERE x = 12345678901234567", " COUNT BY f", " WHERE s = \"a\\\\b\""]))
+        elif r == 3:
+            parts.append(g_define(rng)[0])
+        elif r == 4:
+            parts.append(pr_plot(rng, g_plot(rng)))
+        elif r == 5:
+            parts.append("STORE e FOR c PAYLOAD {" + ",".join('"%s":%s' % (g_ident(rng).decode(), rng.choice(["1", '"x"', '"a;b"', "007", "1.5", "true", '{"n":2}', "-3", '"' + rng.choice(UNI) + '"'])) for _ in range(rng.range(0, 3))) + "}")
+        elif r == 6:
+            parts.append(rng.choice(["REPLAY FOR c1", "REPLAY ev FOR \"c 1\" SINCE \"2024-01-01\"", "SHOW m1", "CREATE USER u1 WITH KEY \"k\"", "GRANT READ, WRITE ON e1, e2 TO u",
+                                     "REVOKE KEY u", "SHOW PERMISSIONS FOR u", "REMEMBER QUERY e LIMIT 3 AS m", "REVOKE WRITE ON e FROM \"u" + rng.choice(UNI) + "\""]))
+        else:
+            parts.append(t_other(rng) if (depth > 0 and junk) else "PING")
+    close = rng.choice(["]", " ]", "", "] trailing"]) if junk else rng.choice(["]", " ]", " ] "])
+    return kwc(rng, "BATCH") + sp(rng, False) + "[" + sp(rng, False) + (sp(rng, False) + ";" + sp(rng, False)).join(parts) + close
+
+
+def g_remember(rng):
+    """(ast, name): REMEMBER QUERY <printed query> AS <name>, strings with non-ASCII text and ' AS ' inside"""
+    q = g_query(rng, depth=rng.range(0, 2))
+    tricky = lambda: ("x" + rng.choice(UNI) * rng.range(1, 4) + rng.choice(["", " AS y", " as " + rng.choice(UNI), " AS "]) + rng.choice(UNI)).encode("utf-8")
+    which = rng.below(4)
+    if which == 0:
+        q["ctx"] = tricky()
+    elif which == 1:
+        q["where"] = ("C", g_field(rng), "eq", ("s", tricky()))
+    elif which == 2:
+        q["ret"] = [tricky(), b"plain"]
+    else:
+        q["since"] = tricky()
+    if rng.chance(1, 2):
+        q["limit"] = rng.choice([10, 100, 12345])
+    name = rng.choice(["m1", "saved-q", "A_b", "x"])
+    return q, name
+
+
 MUT_ALPHA = list(" \t\n\"'()[]{},;:=<>!.-_\\*/+0123456789") + ["NOT ", " AND ", " OR ", "(", ")", "é", " ", "🚀", "\"", "\""]
 
 
@@ -485,6 +784,31 @@ def cases(rng, tier):
     for i in range(2000 if big else 60):
         q = g_query(rng, depth=rng.range(5, 7))
         add("rt", None, ast_line="parse_print %d %s" % (rng.below(3), " ".join(enc_query(q))), expect="OK " + canon_query(q))
+    # (rtrem / rtfind) the printed query inside REMEMBER ... AS name (strings with non-ASCII text whose case mapping
+    # changes length, and with ' AS ' inside) and under the FIND head
+    for i in range(6000 if big else 260):
+        q, name = g_remember(rng)
+        add("rtrem", None, ast_line="parse_print %d %s" % (rng.below(3), " ".join(enc_query(q))),
+            wrap=[kwc(rng, "REMEMBER") + sp(rng), rng.choice([" ", "  ", "\t "]) + kwc(rng, "AS") + rng.choice([" ", "  ", " \n"]) + name + rng.choice(["", " ", "\n"])],
+            expect="OK M %s %s" % (hb(name.encode()), canon_query(q)))
+    for i in range(2000 if big else 80):
+        q = g_query(rng, depth=2)
+        add("rtfind", None, ast_line="parse_print %d %s" % (rng.below(3), " ".join(enc_query(q))), head=kwc(rng, "FIND"),
+            expect="OK " + canon_query(q))
+    # (plot) PLOT commands printed by the generator itself, with the command they must parse to
+    for i in range(40000 if big else 900):
+        pl = g_plot(rng)
+        txt = pr_plot(rng, pl)
+        addt("plot", txt, expect=canon_plot(pl))
+        if rng.chance(1, 3):
+            addt("plotmut", mutate(rng, txt))
+    # (define) / (batch)
+    for i in range(20000 if big else 300):
+        txt, exp = g_define(rng)
+        addt("define", txt, expect=exp)
+        addt("definemut", t_define(rng) if rng.chance(1, 2) else mutate(rng, txt))
+    for i in range(20000 if big else 400):
+        addt("batch", t_batch(rng))
     # (rtkw) the same with identifiers whose leading letters spell a keyword: valid identifiers of the grammar
     for i in range(3000 if big else 120):
         q = g_query(rng, depth=1)
@@ -649,12 +973,17 @@ def run_sides(cases_, model_ok):
         outs = vlib.run_lines(vlib.MODEL_RUN, [], [c["ast_line"] for c in todo], timeout=900) if model_ok else [None] * len(todo)
         wfs = vlib.run_lines(vlib.MODEL_RUN, [], ["parse_wf " + c["ast_line"].split(" ", 2)[2] for c in todo], timeout=900) if model_ok else ["WF"] * len(todo)
         for c, o, w in zip(todo, outs, wfs):
-            if c["kind"] == "rt" and w != "WF":
+            if c["kind"] in ("rt", "rtrem", "rtfind") and w != "WF":
                 c["line"] = "parse_cmd -"
                 c["print_failed"] = f"generated AST is not wf_query: {w}"
             elif o and re.fullmatch(r"-|[0-9a-f]+", o):
-                c["line"] = "parse_cmd " + o
-                c["show"] = unhx(o).decode("utf-8", "replace")
+                body = unhx(o)
+                if c.get("head"):          # QUERY -> FIND
+                    body = c["head"].encode() + body[5:]
+                if c.get("wrap"):
+                    body = c["wrap"][0].encode("utf-8") + body + c["wrap"][1].encode("utf-8")
+                c["line"] = "parse_cmd " + hx(body)
+                c["show"] = body.decode("utf-8", "replace")
             else:
                 c["line"] = "parse_cmd -"
                 c["print_failed"] = o
@@ -715,9 +1044,28 @@ def _norm_floats(m):
     return re.sub(r"\bf(-?\d+\.\d+)", lambda mm: "F" + fbits(mm.group(1)), m)
 
 
+_S_RE = re.compile(r"\bS ([0-9a-f]+|-) ([0-9a-f]+|-) ([0-9a-f]+)")
+
+
+def _norm_stores(line):
+    """STORE payloads inside BATCH renderings: compare as parsed JSON"""
+    def rep(m):
+        try:
+            v = _strict_json(unhx(m.group(3)))
+            return "S %s %s J%s" % (m.group(1), m.group(2), json.dumps(v, sort_keys=True))
+        except _BadJson:
+            return "S %s %s INVALIDJSON" % (m.group(1), m.group(2))
+    return _S_RE.sub(rep, line)
+
+
 def same(c, impl, model):
     if model is None:
         return True
+    if model.startswith("OK B") and c["line"].startswith("parse_cmd"):
+        nm = _norm_stores(_norm_floats(model))
+        if "INVALIDJSON" in nm:
+            return impl == "ERR"
+        return impl is not None and _norm_stores(impl) == nm
     if impl in ("ABORT", "TIMEOUT"):
         return True          # resource exhaustion: always reported by the oracle, never by the model
     if model.startswith("DOMAIN|") and c["line"].startswith("parse_cmd"):
@@ -728,6 +1076,10 @@ def same(c, impl, model):
         return same(c2, impl, model[7:])
     if model in ("DOMAIN", "UNMODELLED") or model.startswith("UNMODELLED"):
         return True          # outside the model's domain: totality oracle only
+    if c["line"].startswith("parse_disp") and model.startswith(("BRESP ", "BPANIC ")):
+        if "INVALIDJSON" in _norm_stores(model):
+            return impl == "NOPARSE"
+        return impl == ("RESP" if model.startswith("BRESP ") else "PANIC")
     if c["line"].startswith("parse_disp") and model.startswith("S "):
         try:
             _strict_json(unhx(model[2:]))
@@ -803,6 +1155,8 @@ def classify(c, impl):
     up = b.strip().upper()
     if line.startswith("parse_kind"):
         return "BatchDispatchUnreachable" if impl == "PANIC" and line.endswith(" Batch") and m == "PANIC" else None
+    if m.startswith("BPANIC "):
+        m = "PANIC"
     if line.startswith("parse_disp"):
         if impl == "PANIC" and up.startswith(b"BATCH"):
             return "BatchDispatchUnreachable"
@@ -811,7 +1165,7 @@ def classify(c, impl):
         # (the numeric-conversion panics were repaired by 57cd0c4: a PANIC of parse_cmd has no known class any more)
         # (exponential re-parsing was repaired by 04c7300: a TIMEOUT has no known class any more)
         if impl == "ABORT":
-            if up.startswith((b"QUERY", b"FIND", b"REMEMBER")) and \
+            if up.startswith((b"QUERY", b"FIND", b"REMEMBER", b"PLOT", b"BATCH")) and \
                     len(re.findall(rb"(?i)\b(not|and|or)\b", b)) + _max_paren_depth(b) >= 3000:
                 return "DeepNestingStackOverflow"
             if up.startswith(b"STORE") and b.count(b"{") >= 5000:
